@@ -2,11 +2,19 @@
   C01 — both simulation backends compute the state the circuit defines.
 
   The model `stabRun` is `CompilerBase.compile` + `StabilizerCompiler.compile_one_gate` on the Clifford-tableau model whose
-  operations are proved in C07 to implement Pauli-group (textbook) semantics.  The density-matrix backend is tied to the same
-  model numerically by the correspondence run (rho(model state) vs its matrix, 1e-9) — that half is testing, not proof.
+  operations are proved in C07 to implement Pauli-group (textbook) semantics.
+
+  The density-matrix backend: `DMH.dmRunH` (Proofs/DMCompileH.lean) is the compile loop of `DensityMatrixCompiler` read
+  over complex matrices indexed by bit strings (`apply_unitary` with hermitianize, `apply_measurement` with the clipped
+  probabilities / the three settings / the `np.isclose` threshold / division by the conditional probability,
+  `apply_measurement_controlled_gate`, the reset Kraus pair).  `backends_agree` proves, for every circuit, register mix,
+  setting and script, that it returns `ρ(T) = ∏ (1 + g_i)/2` for the tableau `T` the stabilizer loop returns, with the same
+  classical record.  What remains testing on this side: that the floating-point numpy code computes what `dmRunH` denotes
+  (compared per circuit at 1e-9), see the note before `backends_agree`.
 -/
 import GraphiqModel.Proofs.Circuit
 import GraphiqModel.Proofs.Clifford1
+import GraphiqModel.Proofs.DMCompileH
 namespace Graphiq.C01
 open Graphiq Graphiq.PRow Graphiq.Tab
 
@@ -70,10 +78,88 @@ theorem wrapper_applies_last_listed_first (np n : Nat) (d : Det) (s : RunState) 
       some ((gs.reverse.foldl (fun t g' => gen1 t g' (qIndex np q)) (gen1 s.t g (qIndex np q))).norm) := by
   simp [stepOp, hq, List.reverse_append]
 
-/- Not a theorem of this development (kept visible here as a comment because it needs an exact density-matrix semantics):
-   for every circuit the matrix produced by the density-matrix backend equals ∏(1+g_i)/2 over the model's stabilizers g_i.
-   It is compared numerically (1e-9) on every correspondence circuit with n_quantum ≤ 6; the identification of Pauli-group
-   semantics with Hilbert-space semantics (tensor lifting of the kernel-checked one-qubit bridge of C20) is cited. -/
+/-! ### The density-matrix backend agrees with the stabilizer backend (every circuit, every n)
+
+   `DMH.dmRunH` is a *mathematical* reading of the Python (complex matrices indexed by `Fin n → Bool`; `oneQ`, `ctrlG`,
+   `projZ`, `resetKraus` are shown in Proofs/HilbertKron.lean / HilbertBridgeOps.lean to be the Kronecker chains of
+   `get_one_qubit_gate`, `get_two_qubit_controlled_gate`, `projectors_zbasis`, `get_reset_qubit_kraus`).  It is exact:
+   what it cannot exhibit is floating-point rounding in the numpy code (the residue of D39: a probability that should be
+   0 coming out as 1e-17 stays below the `isclose` threshold 1e-8, which is part of the model; a rounding error above
+   the threshold is not).  The per-circuit numerical comparison of the real `DensityMatrixCompiler` with `ρ(model tableau)`
+   stays in the harness as the tie of this reading to the code. -/
+
+open Graphiq.DMH Graphiq.Hilbert in
+/-- **Both backends compute the same state and record** — full statement.  For every circuit over the whole operation
+    alphabet (gates, wrappers, Z-measurement, classically controlled gates, measure-and-reset), any length, any mix of
+    registers, each measurement setting and every script of drawn bits: the density-matrix compile loop fails exactly
+    when the stabilizer compile loop fails (a qubit index out of range), and otherwise returns the density matrix
+    `ρ(T) = ∏_i (1 + g_i)/2` of the tableau `T` the stabilizer loop returns, the same register writes, the same
+    outcomes, the same remaining drawn bits, and "both outcomes had positive probability" = "the tableau measurement was
+    random" for every measurement executed. -/
+theorem backends_agree (ne np : Nat) (d : Det) (script : List Bool) (ops : List COp)
+    (hwf : ∀ op, op ∈ ops → op.WF np) :
+    dmRunH ne np d script ops = (stabRun ne np d script ops).map (hstate (ne + np)) :=
+  dmRunH_eq_map ne np d script ops hwf
+
+open Graphiq.DMH Graphiq.Hilbert in
+/-- the same, spelled out for a run that returns: state, record, outcomes, final register values -/
+theorem backends_agree_on_return (ne np nc : Nat) (d : Det) (script : List Bool) (ops : List COp)
+    (hwf : ∀ op, op ∈ ops → op.WF np) (s : RunState) (h : stabRun ne np d script ops = some s) :
+    ∃ r : HState (ne + np), dmRunH ne np d script ops = some r ∧
+      r.ρ = rho (ne + np) (STab.ofTab s.t) ∧ r.writes = s.writes ∧ r.outs = s.outs ∧ r.script = s.script ∧
+      r.rand = s.rand ∧ finalRecord nc r.writes = finalRecord nc s.writes :=
+  ⟨hstate (ne + np) s, dmRunH_eq_stab ne np d script ops hwf s h, rfl, rfl, rfl, rfl, rfl, rfl⟩
+
+open Graphiq.DMH Graphiq.Hilbert in
+/-- **with `initial_state=`**: from the density matrix of any valid tableau with real stabilizer rows (every tableau the
+    API produces, C07 `history_stab_real`) the two compile loops agree in the same way -/
+theorem backends_agree_from (t0 : Tab) (hv : t0.Valid) (hr : t0.StabReal) (np : Nat) (d : Det) (script : List Bool)
+    (ops : List COp) (hwf : ∀ op, op ∈ ops → op.WF np) (s : RunState) (h : stabRunFrom t0 np d script ops = some s) :
+    dmRunFromH (rho t0.n (STab.ofTab t0)) np d script ops = some (hstate t0.n s) :=
+  dmRunFromH_eq_stab t0 hv hr np d script ops hwf s h
+
+open Graphiq.DMH in
+/-- both compile loops return on every circuit whose register indices are in range -/
+theorem compile_returns (ne np : Nat) (d : Det) (script : List Bool) (ops : List COp)
+    (hr : ∀ op, op ∈ ops → COp.InRange np (ne + np) op) : ∃ s, stabRun ne np d script ops = some s :=
+  stabFold_total np (ne + np) d ops hr _
+
+open Graphiq.DMH Graphiq.Hilbert in
+/-- **The probabilities the density-matrix backend computes are exact**: on the state of any valid tableau, `tr(ρ Π_o)`
+    is ½ for both outcomes when a stabilizer has an X on the qubit (the tableau's random branch) and 1 / 0 for the
+    reported / the other outcome otherwise — so the thresholds `np.isclose(p, 0)` and `p / Σp` of `apply_measurement`
+    select the branch the tableau takes. -/
+theorem dm_probabilities_exact (t : Tab) (hv : t.Valid) (hr : t.StabReal) (q : Nat) (hq : q < t.n) :
+    (∀ p, t.pivot q = some p → ∀ o, Matrix.trace (rho t.n (STab.ofTab t) * projZ t.n q o) = 1 / 2) ∧
+    (t.pivot q = none →
+      Matrix.trace (rho t.n (STab.ofTab t) * projZ t.n q (t.measScratch q).r) = 1 ∧
+      Matrix.trace (rho t.n (STab.ofTab t) * projZ t.n q (!(t.measScratch q).r)) = 0) := by
+  refine ⟨fun p hp o => ?_, fun hp => ?_⟩
+  · rw [projZ_eq _ _ hq]; exact prob_random t hv hr q p o hq hp
+  · rw [projZ_eq _ _ hq, projZ_eq _ _ hq]; exact prob_det t hv hr q hq hp
+
+open Graphiq.DMH Graphiq.Hilbert in
+/-- the matrix the density-matrix backend returns is a pure state: Hermitian, idempotent, **trace 1** -/
+theorem dm_result_is_pure_state (ne np : Nat) (d : Det) (script : List Bool) (ops : List COp)
+    (hwf : ∀ op, op ∈ ops → op.WF np) (r : HState (ne + np)) (h : dmRunH ne np d script ops = some r) :
+    Matrix.conjTranspose r.ρ = r.ρ ∧ r.ρ * r.ρ = r.ρ ∧ Matrix.trace r.ρ = 1 := by
+  rw [backends_agree ne np d script ops hwf] at h
+  cases hs : stabRun ne np d script ops with
+  | none => rw [hs] at h; cases h
+  | some s =>
+    rw [hs] at h
+    injection h with h
+    rw [← h]
+    exact hstate_pure (ne + np) s (stabRun_inv ne np d script ops hwf s hs)
+
+/-- **A reset leaves the measured qubit in |0⟩, density-matrix side**: on a qubit with a definite Z value (which the
+    control of a measure-and-reset has after its measurement) the Kraus pair `|0⟩⟨0|, |0⟩⟨1|` of
+    `get_reset_qubit_kraus` is exactly `reset_z` of the stabilizer backend. -/
+theorem reset_channel_is_reset_z (t : Tab) (hv : t.Valid) (hr : t.StabReal) (q : Nat) (hq : q < t.n)
+    (hp : t.pivot q = none) (o : Bool) :
+    Hilbert.applyChannel (Hilbert.rho t.n (STab.ofTab t)) (Hilbert.resetKraus t.n q)
+      = Hilbert.rho t.n (STab.ofTab (t.resetZ q false o)) :=
+  Hilbert.resetChannel_det t hv hr q hq hp o
 
 /-! ### Non-vacuity: a 1-emitter 2-photon circuit with a measure-and-reset, both forced outcomes -/
 def demo : List COp :=
@@ -88,5 +174,33 @@ example : ∀ op, op ∈ demo → op.WF 2 := by
   intro op h
   simp only [demo, List.mem_cons, List.mem_nil_iff, or_false] at h
   rcases h with h | h | h | h | h | h <;> subst h <;> simp [COp.WF, qIndex]
+
+/-! ### Non-vacuity of `backends_agree`: a Bell pair, a Z-measurement and a classically controlled gate -/
+def bell : List COp :=
+  [.gate1 .H ⟨.e, 0⟩, .cnot ⟨.e, 0⟩ ⟨.p, 0⟩, .measz ⟨.p, 0⟩ 0, .ccx ⟨.e, 0⟩ ⟨.p, 0⟩ 1, .mcr ⟨.e, 0⟩ ⟨.p, 0⟩ 0]
+
+/-- the stabilizer loop returns on it: first measurement random (forced 1), the second and third deterministic -/
+example : (match stabRun 1 1 .one [] bell with
+    | some s => s.t.isSymplectic && s.outs == [true, true, true] && s.rand == [true, false, false]
+        && s.writes == [(0, true), (1, true), (0, true)]
+    | none => false) = true := by decide +kernel
+example : (match stabRun 1 1 .prob [false] bell with
+    | some s => s.outs == [false, false, false] && s.script == [] | none => false) = true := by decide +kernel
+
+theorem bell_wf : ∀ op, op ∈ bell → op.WF 1 := by
+  intro op h
+  simp only [bell, List.mem_cons, List.mem_nil_iff, or_false] at h
+  rcases h with h | h | h | h | h <;> subst h <;> simp [COp.WF, qIndex]
+
+theorem bell_inRange : ∀ op, op ∈ bell → DMH.COp.InRange 1 (1 + 1) op := by
+  intro op h
+  simp only [bell, List.mem_cons, List.mem_nil_iff, or_false] at h
+  rcases h with h | h | h | h | h <;> subst h <;> simp [DMH.COp.InRange, qIndex]
+
+/-- … and so does the density-matrix loop, with `ρ` of the same tableau and the same record (all three settings) -/
+example (d : Det) (script : List Bool) :
+    ∃ s, stabRun 1 1 d script bell = some s ∧ DMH.dmRunH 1 1 d script bell = some (DMH.hstate 2 s) := by
+  obtain ⟨s, hs⟩ := compile_returns 1 1 d script bell bell_inRange
+  exact ⟨s, hs, DMH.dmRunH_eq_stab 1 1 d script bell bell_wf s hs⟩
 
 end Graphiq.C01
